@@ -267,7 +267,7 @@ def tlc_jobs(tier: str, seed: int) -> dict[tuple[str, str], dict[str, Any]]:
     for tag, _, _ in ab_spaces(tier):
         j[("MC_ArgBind", "MC_ArgBind_%s.cfg" % tag)] = dict(coverage=False, workers=4, timeout=3600)
         j[("MC_ArgBind", "Gen_ArgBind_%s.cfg" % tag)] = dict(workers=4, timeout=3600)
-    j[("MC_ArgBind", "Gen_ArgBind_4x4sim.cfg")] = dict(workers=2, simulate="num=%d" % (2 * ab_nsim(tier)), depth=5,
+    j[("MC_ArgBind", "Gen_ArgBind_4x4sim.cfg")] = dict(workers=2, simulate="num=%d" % max(3, ab_nsim(tier) // 12), depth=5,
                                                         seed=seed * 7919 + 11, coverage=False, timeout=3600)
     j[("MC_C3", "MC_C3_5.cfg")] = dict(workers=4, timeout=1800)
     j[("MC_C3", "Gen_C3_5.cfg")] = dict(workers=2, coverage=False, timeout=1800)
@@ -315,7 +315,7 @@ def ab_nsim(tier: str) -> int:
 
 def ab_spaces(tier: str) -> list[tuple[str, int, int]]:
     """Completely enumerated (parameters x actuals) spaces of the tier."""
-    spaces = [("3x2", 3, 2)] if tier == "quick" else [("3x3", 3, 3), ("4x2", 4, 2)]
+    spaces = [("3x2", 3, 2), ("2x3", 2, 3)] if tier == "quick" else [("3x3", 3, 3), ("4x2", 4, 2)]
     extra = os.environ.get("C12_ARGBIND_EXTRA")  # development: e.g. "4x3" = also enumerate that space completely
     if extra:
         spaces.append((extra, int(extra[0]), int(extra[2])))
@@ -418,7 +418,7 @@ def sig_text(sig: list[dict[str, Any]], fname: str = "f", ann: bool = True) -> s
 
 def call_text(call: list[dict[str, Any]], fname: str = "f", pretty: bool = False) -> str:
     parts = []
-    for a in call:
+    for i, a in enumerate(call):
         k = a["k"]
         if k == "P":
             parts.append("1")
@@ -426,11 +426,19 @@ def call_text(call: list[dict[str, Any]], fname: str = "f", pretty: bool = False
             parts.append("%s=1" % a["n"])
         elif k == "S":
             parts.append("*t%d" % a["l"])
+        elif k == "L":          # a list of statically unknown length (one variable per position)
+            parts.append("*list" if pretty else "*l%d" % i)
+        elif k == "M":          # a dict of statically unknown keys
+            parts.append("**dict" if pretty else "**m%d" % i)
         elif pretty:
             parts.append("**{%s}" % ",".join(sorted(a["ks"])))
         else:
             parts.append("**d_" + "".join(sorted(a["ks"])))
     return "%s(%s)" % (fname, ", ".join(parts))
+
+
+def call_unknowns(call: list[dict[str, Any]]) -> list[str]:
+    return [("l%d" if a["k"] == "L" else "m%d") % i for i, a in enumerate(call) if a["k"] in ("L", "M")]
 
 
 def ab_header() -> list[str]:
@@ -443,6 +451,7 @@ def ab_header() -> list[str]:
             h.append("TD_%s = TypedDict('TD_%s', {%s})" % (nm, nm, ", ".join("'%s': int" % x for x in ks)))
             h.append("d_%s: TD_%s" % (nm, nm))
     h += ["t0: tuple[()]", "t1: tuple[int]", "t2: tuple[int, int]"]
+    h += ["l%d: list[int]" % i for i in range(4)] + ["m%d: dict[str, int]" % i for i in range(4)]
     return h
 
 
@@ -468,9 +477,34 @@ def cpy_bind(fn: Any, lam: Any) -> str:
         return "other:" + s
 
 
+def cpy_bind_all(fn: Any, lam: Any, unknowns: list[str], names: str) -> str:
+    """A call with *list / **dict actuals: really make it for EVERY candidate content (lists of 0..5
+    items, dicts over every subset of `names`).  '' = binds every time, 'forall' = TypeError every
+    time (mypy must reject), 'either' = depends on the contents (no claim)."""
+    import itertools
+    cands = []
+    for u in unknowns:
+        if u[0] == "l":
+            cands.append([[1] * n for n in range(len(NAMES) + 2)])
+        else:
+            cands.append([{k: 1 for k in ks} for r in range(len(names) + 1) for ks in itertools.combinations(names, r)])
+    ok = bad = 0
+    for combo in itertools.product(*cands):
+        try:
+            lam(fn, *combo)
+            ok += 1
+        except TypeError:
+            bad += 1
+        if ok and bad:
+            return "either"
+    return "forall" if bad else ""
+
+
 def ab_kind(cc: str, mk: str, md: Any) -> str | None:
     if mk == "crash":
         return "crash:" + md.split(":")[0]
+    if cc == "either":
+        return None
     if mk == "ok" and cc:
         return "false_accept"
     if mk == "rej" and not cc:
@@ -479,8 +513,9 @@ def ab_kind(cc: str, mk: str, md: Any) -> str | None:
 
 
 def ab_eval_pairs(sigs: list[Any], calls: list[Any], pairs: list[tuple[int, int]],
-                  pristine: bool = False) -> tuple[list[str], list[Any], int, int]:
-    """CPython outcome and mypy outcome of every (sig index, call index) pair."""
+                  pristine: bool = False, names: str = AB_ALLNAMES) -> tuple[list[str], list[Any], int, int]:
+    """CPython outcome and mypy outcome of every (sig index, call index) pair (`names`: the keys a
+    **dict of unknown content may have; names no signature of the space has all behave like `z`)."""
     ns = ab_runtime_ns()
     header = ab_header()
     fns: dict[int, Any] = {}
@@ -490,28 +525,37 @@ def ab_eval_pairs(sigs: list[Any], calls: list[Any], pairs: list[tuple[int, int]
         exec(src, ns)  # the same text mypy sees
         fns[s] = ns["f%d" % s]
     lams: dict[int, Any] = {}
+    unk: dict[int, list[str]] = {}
     cpy: list[str] = []
     lines: list[str] = []
     for s, c in pairs:
         if c not in lams:
-            lams[c] = eval("lambda f: " + call_text(calls[c], "f"), ns)
-        cpy.append(cpy_bind(fns[s], lams[c]))
+            unk[c] = call_unknowns(calls[c])
+            lams[c] = eval("lambda %s: %s" % (", ".join(["f"] + unk[c]), call_text(calls[c], "f")), ns)
+        cpy.append(cpy_bind_all(fns[s], lams[c], unk[c], names) if unk[c] else cpy_bind(fns[s], lams[c]))
         lines.append(call_text(calls[c], "f%d" % s))
     my, builds, differ = run_cases(header, lines, pristine=pristine)
     return cpy, my, builds, differ
 
 
-def ab_chunk(task: tuple[list[Any], list[Any], list[Any]]) -> dict[str, Any]:
-    sigs, calls, vec = task
+def ab_chunk(task: tuple[list[Any], list[Any], list[Any], list[Any], str]) -> dict[str, Any]:
+    sigs, calls, vec, qvec, names = task
     pairs = [(s, c) for c in range(len(calls)) for s in range(len(sigs))]
-    cpy, my, builds, differ = ab_eval_pairs(sigs, calls, pairs)
+    cpy, my, builds, differ = ab_eval_pairs(sigs, calls, pairs, names=names)
     out: dict[str, Any] = {"n": len(pairs), "builds": builds, "drift": [], "bad": [], "codes": {}, "cpy_rej": 0,
-                           "my_rej": 0, "sample": None, "differ": differ}
+                           "my_rej": 0, "sample": None, "differ": differ, "unknown_content": 0, "unknown_decided": 0}
+    has_unknown = [bool(call_unknowns(c)) for c in calls]
     for (s, c), cc, (mk, md) in zip(pairs, cpy, my):
         mask = vec[c][s]
-        if (cc == "") != (mask == 0) or (cc and (cc.startswith("other:") or not (mask & ERRBITS[cc]))):
+        if has_unknown[c]:
+            out["unknown_content"] += 1
+            out["unknown_decided"] += cc != "either"
+            if {"": 0, "forall": 1, "either": 2}[cc] != qvec[c][s]:
+                out["drift"].append((s, c, cc, "quantified verdict %d" % qvec[c][s]))
+        elif (cc == "") != (mask == 0) or (cc and (cc.startswith("other:") or not (mask & ERRBITS[cc]))) \
+                or qvec[c][s] != (1 if cc else 0):
             out["drift"].append((s, c, cc, mask))
-        if cc:
+        if cc and cc != "either":
             out["cpy_rej"] += 1
         if mk == "rej":
             out["my_rej"] += 1
@@ -520,7 +564,7 @@ def ab_chunk(task: tuple[list[Any], list[Any], list[Any]]) -> dict[str, Any]:
         kind = ab_kind(cc, mk, md)
         if kind:
             out["bad"].append((s, c, kind))
-        if out["sample"] is None and cc and mk == "rej" and len(calls[c]) >= 2:
+        if out["sample"] is None and cc and cc != "either" and mk == "rej" and len(calls[c]) >= 2:
             out["sample"] = {"def": sig_text(sigs[s]), "call": call_text(calls[c]), "cpython": cc, "mypy": md, "spec_mask": mask}
     return out
 
@@ -533,7 +577,7 @@ def ab_kind_task(xs: list[Any]) -> list[str | None]:
     return [ab_kind(cc, mk, md) for cc, (mk, md) in zip(cpy, my)]
 
 
-_KRANK = {"P": 0, "S": 1, "K": 2, "D": 3}
+_KRANK = {"P": 0, "S": 1, "L": 1, "K": 2, "D": 3, "M": 3}
 
 
 def ab_wellformed_sig(sig: list[Any]) -> bool:
@@ -555,14 +599,14 @@ def ab_wellformed_call(call: list[Any]) -> bool:
     for a in call:
         if a["k"] == "P" and (seen_k or seen_d):
             return False
-        if a["k"] == "S" and seen_d:
+        if a["k"] in ("S", "L") and seen_d:
             return False
         if a["k"] == "K":
             if a["n"] in kws:
                 return False
             kws.add(a["n"])
             seen_k = True
-        if a["k"] == "D":
+        if a["k"] in ("D", "M"):
             seen_d = True
     return True
 
@@ -680,17 +724,19 @@ def ab_space(tag: str, np_: int, na: int, g: Any, failing: list[Any], cov: dict[
     rows.sort(key=lambda r: sum(1 for a in r["c"] if a["k"] == "D") >= 2)
     calls = [canon_call(r["c"]) for r in rows]
     vec = [r["v"] for r in rows]
-    if any(len(x) != len(sigs) for x in vec):
+    qvec = [r["q"] for r in rows]
+    if any(len(x) != len(sigs) for x in vec + qvec):
         raise MachineryError("ArgBind %s: verdict vector length" % tag)
+    names = NAMES[:np_] + "z"
     per = max(1, min(8000, max(1500, len(sigs) * len(calls) // (2 * NPROC))) // len(sigs))
     offs = list(range(0, len(calls), per))
     t0 = time.time()
-    outs = pool_map(ab_chunk, [(sigs, calls[lo:lo + per], vec[lo:lo + per]) for lo in offs])
+    outs = pool_map(ab_chunk, [(sigs, calls[lo:lo + per], vec[lo:lo + per], qvec[lo:lo + per], names) for lo in offs])
     n = sum(o["n"] for o in outs)
     for lo, o in zip(offs, outs):
         if o["drift"]:
             s, c, cc, mask = o["drift"][0]
-            raise MachineryError("ArgBind.tla drifts from CPython on %d inputs, e.g. %s <- %s: CPython %r, spec error mask %d"
+            raise MachineryError("ArgBind.tla drifts from CPython on %d inputs, e.g. %s <- %s: CPython %r, spec %r"
                                  % (sum(len(x["drift"]) for x in outs), sig_text(sigs[s]), call_text(calls[lo + c]), cc, mask))
     codes: dict[str, int] = {}
     kinds: dict[str, int] = {}
@@ -707,11 +753,13 @@ def ab_space(tag: str, np_: int, na: int, g: Any, failing: list[Any], cov: dict[
         "signatures": len(sigs), "calls": len(calls), "pairs_replayed": n,
         "cpython_rejects": sum(o["cpy_rej"] for o in outs), "mypy_rejects": sum(o["my_rej"] for o in outs),
         "mypy_builds": sum(o["builds"] for o in outs), "mypy_error_codes_on_call_lines": codes,
+        "pairs_with_unknown_content_actuals": sum(o["unknown_content"] for o in outs),
+        "of_those_same_verdict_for_all_contents": sum(o["unknown_decided"] for o in outs),
         "disagreements": kinds, "discovery_vs_unmodified_build_differences": sum(o["differ"] for o in outs),
         "replay_wall_s": round(time.time() - t0, 1),
         "sample": next((o["sample"] for o in outs if o["sample"]), None),
     }
-    return {"np": np_, "na": na, "names": set(NAMES[:np_] + "z"), "table": table}
+    return {"np": np_, "na": na, "names": set(names), "table": table}
 
 
 def check_argbind(v: Verdict, tier: str, rnd: random.Random, cov: dict[str, Any]) -> dict[str, int]:
@@ -728,7 +776,7 @@ def check_argbind(v: Verdict, tier: str, rnd: random.Random, cov: dict[str, Any]
         transitions += r.generated
         tables.append(ab_space(tag, np_, na, g, failing, cov))
         cov["argbind/" + tag].update(tlc=dict(coverage_summary(g), states=r.distinct, transitions=r.generated,
-                                              invariants=["SigsAgree", "BindsIffWellDefined", "DefaultsRelax", "ArityMonotone"]))
+                                              invariants=["SigsAgree", "BindsIffWellDefined", "DefaultsRelax", "ArityMonotone", "QuantifiedAgrees"]))
         pairs += cov["argbind/" + tag]["pairs_replayed"]
     # seeded sample of the 4 x 4 space (TLC simulation picks the calls; every signature of <= 4 parameters)
     nsim = ab_nsim(tier)
@@ -1722,7 +1770,7 @@ def main(argv: list[str]) -> int:
         "traces_validated_against_impl": replayed,
         "evaluations": replayed,
         "distinct_nontrivial": sum(t.get("nontrivial", t.get("failing", 0)) for t in totals.values()) +
-                               (cov.get("argbind/3x2", cov.get("argbind/4x3", {})).get("cpython_rejects", 0)),
+                               (cov.get("argbind/3x2", cov.get("argbind/3x3", {})).get("cpython_rejects", 0)),
         "rule": "every input TLC emits is replayed: (signature, call) pairs, class hierarchies, (condition, target) pairs, "
                 "constant expressions; each is executed by CPython (oracle, also validates the specification) and given to "
                 "mypy / mypyc.  non-trivial = calls CPython rejects + hierarchies with multiple inheritance + "
